@@ -177,9 +177,11 @@ func init() {
 	}
 	Checks["C05"] = func() *Check {
 		return &Check{
-			ID:          "C05",
-			Runs:        []Run{{S: efundScenario(), Opt: opt}},
-			Owns:        ownsAny("ent.locked", "ent.spent", "ent.completion_spendable"),
+			ID:   "C05",
+			Runs: []Run{{S: efundScenario(), Opt: opt}},
+			// unlocked eFUND is *spent as the fee*: balances of payers, granters and the fee collector follow the model
+			// (an unlock that leaves the amount with the payer while a smaller fee is deducted moves no book, only balances)
+			Owns:        ownsAny("ent.locked", "ent.spent", "ent.completion_spendable", "bal:"),
 			Assumptions: []string{"whether the pre-execution stage passed is observed (the payer's sequence advanced), not modelled", "Cosmos-SDK vesting arithmetic is the trusted substrate"},
 		}
 	}
